@@ -337,7 +337,7 @@ func Main(r *core.Run) {
 		}
 	}
 	jobs := []jobset{{all, selectors(quick)}, {small, Families(quick)}}
-	r.Rule(fmt.Sprintf("every selector AST with ≤%d clauses over the tier's clause alphabet plus every parser-accepted subset bound pair (%d selectors) × every block graph with ≤%d nodes over leaves {int,string,bytes,dangling link}, cut into blocks in every way with ≤%d cuts, plus targeted 3-level shapes with shared/repeated links (%d graphs); targeted families (overlapping unions, unions under recursion with uneven edge distances, unguarded edges, nested recursion: %d selectors) × %d graphs; WalkAdv and WalkMatching on the real code vs the substitution-style reference denotation. Non-trivial = ≥2 expected visits; distinct by (graph, selector).", map[bool]int{true: 3, false: 4}[quick], len(jobs[0].ss), map[bool]int{true: 4, false: 5}[quick], map[bool]int{true: 2, false: 3}[quick], len(all), len(jobs[1].ss), len(small)))
+	r.Rule(fmt.Sprintf("every selector AST with ≤%d clauses over the tier's clause alphabet plus every parser-accepted subset bound pair (%d selectors) × every block graph with ≤%d nodes over leaves {int,string,bytes,dangling link}, cut into blocks in every way with ≤%d cuts, plus targeted 3-level shapes with shared/repeated links (%d graphs); targeted families (overlapping unions, unions under recursion with uneven edge distances, unguarded edges, nested recursion: %d selectors) × %d graphs; recursions with a stop-at link condition (every link of the graph as the condition, on one-, two- and three-step sequences); WalkAdv and WalkMatching on the real code vs the substitution-style reference denotation. Non-trivial = ≥2 expected visits; distinct by (graph, selector).", map[bool]int{true: 3, false: 4}[quick], len(jobs[0].ss), map[bool]int{true: 4, false: 5}[quick], map[bool]int{true: 2, false: 3}[quick], len(all), len(jobs[1].ss), len(small)))
 	r.Assume("reference denotation mc/trav/refwalk.go: recursion by substitution as documented in exploreRecursive.go (each edge becomes a copy of the recursive selector with depth-1), union = set of members, order = node order under explore-all else stated order")
 	for ji, job := range jobs {
 		gs, ss := job.gs, job.ss
@@ -367,6 +367,7 @@ func Main(r *core.Run) {
 			}
 		})
 	}
+	stopAtJobs(r, small)
 	ss, gs := jobs[0].ss, jobs[0].gs
 	r.Sample(map[string]any{"selector": ss[len(ss)/2].String(), "graph": gs[len(gs)/2].String()})
 	r.Sample(map[string]any{"selector": jobs[1].ss[len(jobs[1].ss)/3].String(), "graph": jobs[1].gs[len(jobs[1].gs)-1].String()})
@@ -419,4 +420,79 @@ func Families(quick bool) []*trav.Sel {
 		}
 	}
 	return out
+}
+
+// stopFamilies: recursions carrying a stop-at condition for the given link, with the edge reached
+// after one, two and three steps (so that the stop link can sit at an edge position and in the
+// middle of a sequence), alone and beside a matcher.
+func stopFamilies(stop string) []*trav.Sel {
+	type mk func(*trav.Sel) *trav.Sel
+	steps := []mk{
+		trav.All,
+		func(n *trav.Sel) *trav.Sel { return trav.Fld(trav.F1("a", n)) },
+		func(n *trav.Sel) *trav.Sel { return trav.Fld(trav.F1("b", n), trav.F1("a", n)) },
+		func(n *trav.Sel) *trav.Sel { return trav.Idx(0, n) },
+		func(n *trav.Sel) *trav.Sel { return trav.Idx(1, n) },
+		func(n *trav.Sel) *trav.Sel { return trav.Rng(0, 2, n) },
+	}
+	rec := func(l int64, n *trav.Sel) *trav.Sel {
+		r := trav.Rec(l, n)
+		r.StopAt = stop
+		return r
+	}
+	var out []*trav.Sel
+	for _, l := range []int64{2, -1} {
+		for _, x := range steps {
+			out = append(out, rec(l, x(trav.Edge())), rec(l, trav.Un(trav.M(), x(trav.Edge()))), rec(l, x(trav.Un(trav.M(), trav.Edge()))))
+			for _, y := range steps {
+				out = append(out, rec(l, x(y(trav.Edge()))), rec(l, trav.Un(trav.M(), x(y(trav.Edge())))), rec(l, x(trav.Un(trav.M(), y(trav.Edge())))))
+			}
+			out = append(out, rec(l, x(x(x(trav.Edge())))))
+			// a stop condition on an inner recursion only, and on both
+			inner := rec(2, x(trav.Un(trav.M(), trav.Edge())))
+			out = append(out, trav.Rec(l, x(trav.Un(trav.Edge(), inner))), rec(l, x(trav.Un(trav.Edge(), inner))))
+		}
+	}
+	return out
+}
+
+func stopAtJobs(r *core.Run, gs []trav.GraphSpec) {
+	var withLinks []trav.GraphSpec
+	for _, g := range gs {
+		if len(g.Cuts) > 0 || strings.Contains(g.String(), "<") {
+			withLinks = append(withLinks, g)
+		}
+	}
+	nsel := len(stopFamilies("x"))
+	r.Set("jobset-stopat", map[string]int{"selectors_per_link": nsel, "graphs_with_links": len(withLinks)})
+	core.ParallelFor(len(withLinks), func(gi int) {
+		var lc core.LocalCounters
+		var nt int64
+		oc := map[string]int64{}
+		built := trav.Build(withLinks[gi])
+		links := append([]string(nil), built.Links...)
+		if strings.Contains(withLinks[gi].String(), "<") {
+			links = append(links, trav.DanglingLink)
+		}
+		for _, l := range links {
+			for _, s := range stopFamilies(l) {
+				c := Case{Graph: withLinks[gi], Sel: s, Text: s.String()}
+				fs, outcome := CheckBuilt(built, c)
+				lc.Transitions += 2
+				lc.Traces += 2
+				lc.Evals++
+				lc.States++
+				oc["stopat:"+outcome]++
+				if strings.HasPrefix(outcome, "ok:") && !strings.Contains(outcome, "/v1/") || outcome == "bad" {
+					nt++
+				}
+				r.Report("walk", c, fs)
+			}
+		}
+		r.Merge(&lc)
+		r.NontrivialN(nt)
+		for k, v := range oc {
+			r.OutcomeN(k, v)
+		}
+	})
 }
